@@ -616,7 +616,9 @@ pub fn oracle_c02(w: &World, obs: &RunObs) -> Result<(), (String, String)> {
 pub fn oracle_c03_all(w: &World, obs: &RunObs) -> Vec<(String, String)> {
     let mut out = Vec::new();
     let exp = expectations(w);
-    let marked_names: BTreeSet<&String> = w.policies.iter().filter(|p| marked(p)).map(|p| &p.name).collect();
+    // managed = marked AND consisting of the default reject only (C16): an annotated statement with
+    // other content is not managed, and an installed policy of that name is rightly removed
+    let marked_names: BTreeSet<&String> = w.policies.iter().filter(|p| marked(p) && p.body == Body::DefaultReject).map(|p| &p.name).collect();
     let cause_of = |name: &String| -> Option<&'static str> {
         match exp.get(name) {
             Some(Expect::Target(..)) => None,
